@@ -96,6 +96,17 @@ static std::string scheme_check(const SchemeRow & row, int nphase)
         f[i] = v;
         runs.push_back(f);
       }
+    // the leading decisions (branch selection and what follows it) in pairs: every pair of the first five deviate
+    // positions over the grid (deviation bound 2 where the scheme selectors live)
+    for (size_t i = 0; i < 5; i++)
+      for (size_t j = i + 1; j < 5; j++)
+        for (double v : GRID)
+          for (double w : GRID) {
+            Forced f;
+            f[i] = v;
+            f[j] = w;
+            runs.push_back(f);
+          }
     for (auto & f : runs) {
       Ev a = P.shot(f);
       Ev b = direct(row, f, PHASE);
